@@ -290,6 +290,10 @@ struct ThreadState {
     /// The input id of the call in progress (for output ids).
     current_call: u64,
     used: bool,
+    /// End readings taken so far on this thread.
+    windows_done: u64,
+    /// Calls since the last start reading.
+    calls_since_start: u64,
 }
 
 struct World {
@@ -297,6 +301,9 @@ struct World {
     threads: Vec<UnsafeCell<ThreadState>>,
     seq: AtomicU64,
     stray_events: AtomicU64,
+    /// `u64::MAX`, or the round (number of end readings) from which on every
+    /// thread panics at its first call (orderly abandonment of a runaway).
+    abandon_at_window: AtomicU64,
 }
 
 unsafe impl Sync for World {}
@@ -342,13 +349,21 @@ fn with_state<R>(f: impl FnOnce(&World, &mut ThreadState, usize) -> R) -> Option
 
 /// Events per thread after which a run is abandoned as a runaway (the process
 /// exits with `BUDGET_EXIT`; the orchestrator reports it as inconclusive).
-pub const LOG_CAP: usize = 1_500_000;
+pub const LOG_CAP: usize = 3_000_000;
 pub const BUDGET_EXIT: i32 = 87;
+/// Events per thread after which a run is wound down in an orderly way: two
+/// rounds later every thread panics at its first call of the round (all
+/// threads in the same phase, so nobody is left waiting at a barrier). The
+/// oracle then judges the completed rounds.
+pub const SOFT_CAP: usize = 150_000;
 
 fn log(ev: Ev) {
     galloc::internal(|| {
         with_state(|w, st, _| {
             let seq = w.seq.fetch_add(1, SeqCst);
+            if st.log.len() >= SOFT_CAP && w.abandon_at_window.load(SeqCst) == u64::MAX {
+                w.abandon_at_window.store(st.windows_done + 2, SeqCst);
+            }
             if st.log.len() >= LOG_CAP {
                 eprintln!("vcheck: event budget exhausted (runaway run); case: {:?}", w.case);
                 std::process::exit(BUDGET_EXIT);
@@ -368,6 +383,11 @@ fn clock_reader(is_end: bool) -> u64 {
             let v = st.clock;
             let seq = w.seq.fetch_add(1, SeqCst);
             st.log.push(Event { ev: if is_end { Ev::TsEnd { v } } else { Ev::TsStart { v } }, seq, clock: v });
+            if is_end {
+                st.windows_done += 1;
+            } else {
+                st.calls_since_start = 0;
+            }
             st.clock = st.clock.wrapping_add(w.case.costs.read);
             v
         })
@@ -626,6 +646,15 @@ fn benched_body<O: Shape<1>>(input_id: u64, consume_input: impl FnOnce()) -> O {
     } else {
         input_id
     };
+    let abandon = with_state(|w, st, _| {
+        let first = st.calls_since_start == 0;
+        st.calls_since_start += 1;
+        first && st.windows_done >= w.abandon_at_window.load(SeqCst)
+    })
+    .unwrap_or(false);
+    if abandon {
+        panic!("vcheck: runaway run abandoned (event budget)");
+    }
     log(Ev::Call { id: input_id });
     maybe_panic(Role::Benched);
     advance(call_cost());
@@ -771,6 +800,9 @@ pub struct LoopOutcome {
     /// Event log per logical thread.
     pub logs: Vec<Vec<Event>>,
     pub stray_events: u64,
+    /// The run was wound down by the harness because it exceeded the event
+    /// budget (`result` is then an `Err` from the harness's own panic).
+    pub abandoned: bool,
 }
 
 /// Runs one case on real threads (no scheduler).
@@ -793,11 +825,14 @@ pub fn run_loop_with(c: &LoopCase, wrap: impl FnOnce(&mut dyn FnMut())) -> LoopO
                     blocks: Vec::new(),
                     current_call: 0,
                     used: false,
+                    windows_done: 0,
+                    calls_since_start: 0,
                 })
             })
             .collect(),
         seq: AtomicU64::new(0),
         stray_events: AtomicU64::new(0),
+        abandon_at_window: AtomicU64::new(u64::MAX),
     });
     let world_ptr = Box::into_raw(world);
     LTID.with(|l| l.set(0));
@@ -839,6 +874,7 @@ pub fn run_loop_with(c: &LoopCase, wrap: impl FnOnce(&mut dyn FnMut())) -> LoopO
     // every task has completed). Reclaim it.
     let world = unsafe { Box::from_raw(world_ptr) };
     let stray = world.stray_events.load(SeqCst);
+    let abandoned = world.abandon_at_window.load(SeqCst) != u64::MAX;
     let mut logs = Vec::new();
     for cell in world.threads.into_iter() {
         let st = cell.into_inner();
@@ -850,5 +886,5 @@ pub fn run_loop_with(c: &LoopCase, wrap: impl FnOnce(&mut dyn FnMut())) -> LoopO
     while logs.len() > 1 && logs.last().map(|l| l.is_empty()).unwrap_or(false) {
         logs.pop();
     }
-    LoopOutcome { result, view: outcome_view, stats, painted, logs, stray_events: stray }
+    LoopOutcome { result, view: outcome_view, stats, painted, logs, stray_events: stray, abandoned }
 }
